@@ -37,7 +37,34 @@ def _cvc5(smt2, timeout_s):
         os.unlink(path)
 
 
-def discharge(pc, cond, timeout_ms, want_model=True, both=False):
+def _small_prefs(syms):
+    """soft preferences for counter-models and witnesses: small values for every declared integer input, so that
+    native replays do not allocate gigabyte buffers for an allocation length of 2**32-1"""
+    prefs = []
+    for v in (syms or {}).values():
+        if isinstance(v, SInt) and v.hi is not None and v.hi > (1 << 12):
+            prefs.append(V.range_constraint(SInt(v.e, max(v.lo or 0, 0) if (v.lo or 0) >= 0 else v.lo, 1 << 12)))
+        elif isinstance(v, (V.SBuf, V.SMBuf)) and isinstance(v.n, SInt):
+            prefs.append(v.n.e <= 256)
+    return prefs
+
+
+def _nice_model(s, prefs):
+    """model of solver s (already sat); retried with the soft preferences, greedily"""
+    m = s.model()
+    if not prefs:
+        return m
+    s.push()
+    try:
+        s.add(*prefs)
+        if s.check() == z3.sat:
+            m = s.model()
+    finally:
+        s.pop()
+    return m
+
+
+def discharge(pc, cond, timeout_ms, want_model=True, both=False, prefs=None):
     """returns dict(verdict='proved'|'failed'|'unknown', backend, model, time)"""
     t0 = time.time()
     if isinstance(cond, (SBool, SInt)):
@@ -73,7 +100,7 @@ def discharge(pc, cond, timeout_ms, want_model=True, both=False):
             if r2 == "unsat":
                 backend += "+cvc5"
         return dict(verdict="proved", backend=backend, model=None, time=time.time() - t0)
-    return dict(verdict="failed", backend=backend, model=s.model() if want_model else None, time=time.time() - t0)
+    return dict(verdict="failed", backend=backend, model=_nice_model(s, prefs) if want_model else None, time=time.time() - t0)
 
 
 def _observe_kind(out):
@@ -174,7 +201,7 @@ def verify_case(unit_name, case, prop=None, tier="quick", opts=None):
                 res["obligations"].append(dict(name=name, prop=p, path=pi, verdict="unknown", backend="contract", time=0, outcome=out.describe()))
                 all_proved = False
                 continue
-            d = discharge(ctx.pc, c, timeout_ms, both=opts.get("both", False))
+            d = discharge(ctx.pc, c, timeout_ms, both=opts.get("both", False), prefs=_small_prefs(rec["syms"]))
             res["solver_time"] += d["time"]
             ob = dict(name=name, prop=p, path=pi, verdict=d["verdict"], backend=d["backend"], time=round(d["time"], 4),
                       outcome=out.describe())
@@ -182,7 +209,7 @@ def verify_case(unit_name, case, prop=None, tier="quick", opts=None):
                 all_proved = False
                 m = d["model"]
                 if m is None and d["backend"] == "ground":
-                    m = _any_model(ctx.pc, timeout_ms)
+                    m = _any_model(ctx.pc, timeout_ms, _small_prefs(rec["syms"]))
                 ob["inputs"] = _jsonable(model_inputs(decls, rec["syms"], m)) if m is not None else None
                 ob["decisions"] = [str(x)[:200] for x in ctx.decisions[:12]]
                 res["violations"].append(ob)
@@ -203,7 +230,7 @@ def verify_case(unit_name, case, prop=None, tier="quick", opts=None):
                 res["notes"].append("CANARY PASSED: %s/%s on path %d" % (unit_name, n, pi))
         # witness: a concrete input of this path, run natively; outcome and clauses must agree
         if all_proved and (pi < n_wit or rng.random() < 0.05) and not opts.get("no_witness"):
-            m = _any_model(ctx.pc, timeout_ms)
+            m = _any_model(ctx.pc, timeout_ms, _small_prefs(rec["syms"]))
             if m is not None:
                 inp = _jsonable(model_inputs(decls, rec["syms"], m))
                 try:
@@ -231,13 +258,13 @@ def verify_case(unit_name, case, prop=None, tier="quick", opts=None):
     return res
 
 
-def _any_model(pc, timeout_ms):
+def _any_model(pc, timeout_ms, prefs=None):
     s = z3.Solver()
     s.set("timeout", int(timeout_ms))
     for c in pc:
         s.add(c)
     if s.check() == z3.sat:
-        return s.model()
+        return _nice_model(s, prefs)
     return None
 
 
